@@ -242,21 +242,17 @@ impl<R: Read, TSpec> TagIterator<R, TSpec>
             return Ok(true)
         }
 
-        if self.buffer_offset.is_none() {
-            if !self.private_read(0)? {
+        // Move any unread data to the front of the buffer to make room for more
+        self.buffer.copy_within(self.internal_buffer_position..self.buffered_byte_length, 0);
+        self.buffered_byte_length -= self.internal_buffer_position;
+        self.buffer_offset = Some(self.current_offset());
+        self.internal_buffer_position = 0;
+        self.ensure_capacity(length);
+
+        // A single read is allowed to return fewer bytes than requested, so keep reading until we have enough or hit EOF
+        while self.buffered_byte_length < length {
+            if !self.private_read(self.buffered_byte_length)? {
                 return Ok(false);
-            }
-            self.buffer_offset = Some(0);
-            self.internal_buffer_position = 0;
-        } else {
-            while self.internal_buffer_position + length > self.buffered_byte_length {
-                self.buffer.copy_within(self.internal_buffer_position..self.buffered_byte_length, 0);
-                self.buffered_byte_length -= self.internal_buffer_position;
-                self.buffer_offset = Some(self.current_offset());
-                self.internal_buffer_position = 0;
-                if !self.private_read(self.buffered_byte_length)? {
-                    return Ok(false);
-                }
             }
         }
         Ok(true)
